@@ -3,7 +3,21 @@
      (2) the maximum width bounds the list of nodes to expand (C13),
      (3) the callback protocol seen through the call log (C12),
      (4) identifier well-formedness (justifies the nth-with-default accessors).
-   Stdlib only; no axioms. *)
+   Stdlib only; no axioms.
+
+   Main results (all inside Section MddStruct, parameters st_eqb and inp):
+   (1) compile_layers_nonempty, as_graphviz_total
+   (2) squash_width_restricted, squash_width_relaxed (+ squash_width_relaxed_zero: why 1 <= width is
+       needed), squash_exact; move_clean_width_restricted/relaxed, move_pooled_width_restricted/relaxed;
+       on the log: layer_loop_width, compile_width_restricted, compile_width_relaxed_clean
+   (3) branch_on_log, branch_on_edge(_sound), expand_node_log (+ expand_trace_protocol),
+       relax_layer_log_weak, relax_layer_log, relax_layer_protocol, squash_relax_merges_two,
+       layer_loop_iteration, layer_loop_nextvar, layer_loop_first_call, compile_nextvar;
+       the protocol checker: layer_loop_protocol, compile_protocol;
+       relax is called on genuine arcs only: layer_loop_relax_genuine, compile_relax_genuine(_sound)
+   (4) wf, wf_initialize, wf_append_edge, wf_branch_on, wf_expand_node, wf_filter_with_cache,
+       wf_filter_with_dominance, wf_restrict_layer, wf_relax_layer, wf_squash_if_needed,
+       wf_move_clean, wf_move_pooled, wf_layer_loop, wf_finalize, wf_compile *)
 Require Import DDO.Base DDO.Fringe DDO.DP DDO.Cache DDO.Dom DDO.Mdd DDO.Viz.
 From Coq Require Import Lia List Arith ZArith Bool.
 Import ListNotations.
@@ -535,6 +549,7 @@ Section MddStruct.
     - rewrite app_length. simpl. pose proof (firstn_le_length' w1 (sort_by (rank_order inp (note_squash inp m)) l)). lia.
   Qed.
 
+  (* restricted: holds for every width, 0 included (the layer is truncated to nothing) *)
   Theorem squash_width_restricted m l m' l' :
     squash_if_needed st_eqb inp m l = (m', l') ->
     ci_type inp = Restricted -> length l' <= ci_width inp.
@@ -769,6 +784,10 @@ Section MddStruct.
   Definition expands (m : mddT) (id : nat) : bool :=
     (sat_add (fast_upper_bound rlx (state_of m id)) (n_vtop (gnode m id)) >? ci_best_lb inp)%Z.
 
+  (* The hypothesis [id < length (m_nodes m)] is necessary (see the counterexample
+     [expand_node_log_out_of_range_counterexample] at the end of this file); it is discharged for
+     every node expanded by a compilation by [wf] (part 4), which is how [layer_loop_protocol] and
+     [compile_protocol] are obtained without any side condition. *)
   Theorem expand_node_log var m id :
     id < length (m_nodes m) ->
     m_log (expand_node st_eqb inp var m id) =
@@ -940,6 +959,22 @@ Section MddStruct.
     skipn (ci_width inp - 1) (sort_by (rank_order inp (note_squash inp m)) l).
   Definition merged_states (m : mddT) (l : list nat) : list St :=
     map (fun id => state_of m id) (merged_ids m l).
+
+  Lemma sort_by_ext {A} (c1 c2 : A -> A -> comparison) l :
+    (forall a b, c1 a b = c2 a b) -> sort_by c1 l = sort_by c2 l.
+  Proof.
+    intros H. induction l as [|x l IH]; simpl; [reflexivity|]. rewrite IH.
+    generalize (sort_by c2 l). intros k. induction k as [|y k IHk]; simpl; [reflexivity|].
+    rewrite H, IHk. reflexivity.
+  Qed.
+
+  (* the merged nodes are those beyond position max_width - 1 in the rank order of the layer *)
+  Lemma merged_ids_eq m l :
+    merged_ids m l = skipn (ci_width inp - 1) (sort_by (rank_order inp m) l).
+  Proof.
+    unfold merged_ids. f_equal. apply sort_by_ext. intros a b.
+    unfold rank_order. rewrite !note_squash_gnode. reflexivity.
+  Qed.
 
   Theorem relax_layer_log_weak m l m' l' :
     1 <= ci_width inp ->
@@ -3621,6 +3656,36 @@ Section MddStruct.
 
 End MddStruct.
 
+(* ------------------------------------------------------------------ the in-range hypothesis of
+   [expand_node_log] cannot be dropped.  Counterexample: states are naturals, transition = successor,
+   every domain is {0, 1}; the diagram is the freshly initialised one (a single node, id 0) and the
+   node to expand is the out-of-range id 1.  [get_node] answers with the default node (state 0) for
+   the first value, but the child created by that first branch receives id 1, so the second value is
+   branched from state 1 and the log differs from [expand_trace 0].  In a compilation this never
+   happens: [wf] holds throughout ([wf_layer_loop]) and every expanded id is in range. *)
+Definition cex_pb : problem nat :=
+  {| nb_vars := 2; init_state := 0; init_value := 0%Z;
+     transition := fun s _ => S s; transition_cost := fun _ _ _ => 0%Z;
+     next_variable := fun _ _ => None; domain := fun _ _ => [0%Z; 1%Z];
+     is_impacted_by := fun _ _ => true |}.
+Definition cex_rlx : relaxation nat :=
+  {| merge := fun _ => 0; relax := fun _ _ _ _ c => c; fast_upper_bound := fun _ => 0%Z |}.
+Definition cex_inp : @cinput nat :=
+  {| ci_flavour := CleanLEL; ci_type := Exact; ci_problem := cex_pb; ci_relax := cex_rlx;
+     ci_ranking := fun _ _ => Eq; ci_domcmp := fun _ _ _ _ => Eq; ci_width := 1;
+     ci_root := {| sp_state := 0; sp_value := 0%Z; sp_path := []; sp_ub := IMAX; sp_depth := 0 |};
+     ci_best_lb := (IMIN - 1)%Z; ci_use_cache := false; ci_domrule := None; ci_cutoff := 0 |}.
+
+Lemma expand_node_log_out_of_range_counterexample :
+  let m := initialize cex_inp [] [] 0 in
+  length (m_nodes m) = 1 /\ expands cex_inp m 1 = true /\
+  m_log (expand_node Nat.eqb cex_inp 0 m 1)
+  <> rev (expand_trace cex_inp 0 (n_state (get_node cex_inp m 1))) ++ m_log m.
+Proof.
+  cbv zeta. split; [reflexivity|]. split; [vm_compute; reflexivity|].
+  vm_compute. intros H. discriminate H.
+Qed.
+
 (* ------------------------------------------------------------------ axiom audit *)
 Print Assumptions compile_layers_nonempty.
 Print Assumptions as_graphviz_total.
@@ -3649,3 +3714,8 @@ Print Assumptions wf_initialize.
 Print Assumptions wf_layer_loop.
 Print Assumptions wf_finalize.
 Print Assumptions wf_compile.
+Print Assumptions relax_layer_full.
+Print Assumptions layer_loop_relax_genuine.
+Print Assumptions compile_relax_genuine.
+Print Assumptions compile_relax_genuine_sound.
+Print Assumptions expand_node_log_out_of_range_counterexample.
